@@ -59,6 +59,7 @@ Proof.
   - right. injection Hs as <-. exact Hin.
   - right. destruct (s_offer s); [discriminate|]. injection Hs as <-. exact Hin.
   - right. destruct (s_pc s); try discriminate. destruct (s_offer s); [|discriminate].
+    destruct (cstate_eqb (s_fsm s) CRunning && fsm_allowed (s_fsm s) CReloading); [|injection Hs as <-; exact Hin].
     destruct (is_perm ord (keys (s_entries s))); [|discriminate]. injection Hs as <-. rewrite insts_begin. exact Hin.
   - right. destruct (s_pc s); try discriminate. destruct (s_cancel s || s_stopreq s || s_closed s); [|discriminate].
     injection Hs as <-. rewrite insts_begin. exact Hin.
@@ -132,7 +133,7 @@ Proof.
   unfold acct_pc in Hpc. rewrite Epc in Hpc. destruct Hpc as (Hk & Hp & Hsp & Hok & Hsh).
   specialize (HR Hsh). unfold round_pc, mid in HR. rewrite Epc in HR. destruct HR as (M1 & _ & _ & _ & M7).
   unfold sp in Hsp. apply map_eq_nil in Hsp. unfold insts_of in Hin. rewrite Hsp, app_nil_r in Hin.
-  destruct (M7 j k c' Hin) as (q & e1 & He1 & Hr1 & Hi1 & [Hn|[]]).
+  destruct (M7 j k c' Hin) as (q & e1 & He1 & Hr1 & Hi1 & _ & [Hn|[]]).
   destruct (M1 q e1 He1 Hn) as [_ Hq]. rewrite Hi1 in Hq. subst q.
   destruct (Hok k Ek) as (e2 & He2 & Hr2 & _). rewrite He1 in He2. injection He2 as <-. congruence.
 Qed.
